@@ -743,7 +743,12 @@ impl TimeCheck {
                     }
                 }
                 8 => TAction::Hold,
-                10 => TAction::Elsewhere { n: *rng.pick(&[1u32, 3, 70, 150]) },
+                10 => {
+                    // also distances just below a power of two: the next timer of this history then gets an
+                    // id that differs from an earlier one by exactly 32, 64, 128 or 256
+                    let n = if rng.chance(1, 2) { *rng.pick(&[1u32, 3, 70, 150]) } else { (1u32 << rng.range(5, 8)).saturating_sub(rng.below(6) as u32) };
+                    TAction::Elsewhere { n }
+                }
                 _ => TAction::Tick,
             };
             actions.push(a);
@@ -805,11 +810,26 @@ pub fn run_scn(s: &TScn, cov: &mut Cov, judged_for: &'static str) -> Result<RunI
 
 fn run_scn_inner(s: &TScn, cov: &mut Cov, occupancy: bool) -> Result<RunInfo, Violation> {
     {
+        // process-wide state left behind by earlier histories of this process must not reach this one
+        crux_time::verif_reset_cleared_timer_ids();
         let cleared_base = crux_time::verif_cleared_timer_ids_len();
         let mut leak_reported = false;
         let mut host = RHost::new(s.host);
         let mut shell = ShellSide::default();
         let mut r = Reference::default();
+        // Timer ids come from a process-wide counter, so what a run sees depends on how many timers the
+        // process has started before - which a replay in a fresh process cannot know. Every run therefore
+        // begins by advancing the counter to the next id that is 1 modulo 256: search, minimisation and
+        // replay then see ids that agree modulo 256 (a seeded change that folded ids modulo 64 was found
+        // but did not replay before this).
+        {
+            let (_b, h) = crux_time::command::Time::<Effect, TEvent>::notify_after(Duration::from_millis(1));
+            let dbg = format!("{h:?}");
+            let cur: u64 = dbg.split("TimerId(").nth(1).and_then(|t| t.split(')').next()).and_then(|t| t.trim().parse().ok()).unwrap_or(0);
+            for _ in 0..(256 - (cur % 256)) % 256 {
+                let _ = crux_time::command::Time::<Effect, TEvent>::notify_after(Duration::from_millis(1));
+            }
+        }
         // sibling cores in the same process draw from the same id counter
         let mut sib_ids = vec![];
         for i in 0..s.sibling_timers {
